@@ -16,6 +16,7 @@ package base
 
 import (
 	"sync"
+	"sync/atomic"
 
 	"github.com/pkg/errors"
 
@@ -35,6 +36,9 @@ type SentinelEntry struct {
 	sc *SlotChain
 
 	exitCtl sync.Once
+	// exited is set once the context has been handed back to the pool;
+	// from then on the context may belong to another entry.
+	exited atomic.Bool
 }
 
 func NewSentinelEntry(ctx *EntryContext, rw *ResourceWrapper, sc *SlotChain) *SentinelEntry {
@@ -51,13 +55,13 @@ func (e *SentinelEntry) WhenExit(exitHandler ExitHandler) {
 }
 
 func (e *SentinelEntry) SetError(err error) {
-	if e.ctx != nil {
+	if e.ctx != nil && !e.exited.Load() {
 		e.ctx.SetError(err)
 	}
 }
 
 func (e *SentinelEntry) SetPair(key, val interface{}) {
-	if e.ctx != nil {
+	if e.ctx != nil && !e.exited.Load() {
 		e.ctx.SetPair(key, val)
 	}
 }
@@ -92,18 +96,21 @@ func (e *SentinelEntry) Exit(exitOps ...ExitOption) {
 	if ctx == nil {
 		return
 	}
-	if options.err != nil {
-		ctx.SetError(options.err)
-	}
 	e.exitCtl.Do(func() {
 		defer func() {
 			if err := recover(); err != nil {
 				logging.Error(errors.Errorf("%+v", err), "Sentinel internal panic in SentinelEntry.Exit()")
 			}
+			e.exited.Store(true)
 			if e.sc != nil {
 				e.sc.RefurbishContext(ctx)
 			}
 		}()
+		// Only the first Exit may record the error: afterwards the pooled context
+		// can already belong to another entry.
+		if options.err != nil {
+			ctx.SetError(options.err)
+		}
 		for _, handler := range e.exitHandlers {
 			if err := handler(e, ctx); err != nil {
 				logging.Error(err, "Fail to execute exitHandler in SentinelEntry.Exit()", "resource", e.Resource().Name())
